@@ -4,7 +4,7 @@
 # runs the property's check against the changed tree and records the outcome under /verif/seeded/<ID>/.
 set -u
 ID=$1; SRC=${2:-/tmp/seed/$ID}; shift; shift 2>/dev/null
-OUT=/verif/seeded/$ID; mkdir -p "$OUT"
+OUT=/verif/seeded/${OUTNAME:-$ID}; mkdir -p "$OUT"
 cp "$SRC/patch.diff" "$OUT/patch.diff" || exit 9
 cp "$SRC/demo.py" "$OUT/demo.py" || exit 9
 [ -f "$SRC/notes.md" ] && cp "$SRC/notes.md" "$OUT/notes.md"
@@ -21,10 +21,11 @@ code=$?
 nviol=$(grep -c '^VIOLATION' "$log")
 first=$(grep -m1 '^  violated' "$log" | cut -c1-300)
 git -C /repo worktree remove --force "$D/repo"; rm -rf "$D"
-python3 - "$ID" "$orig_demo" "$mut_demo" "$suite" "$code" "$nviol" "$first" <<'PY'
+python3 - "${OUTNAME:-$ID}" "$orig_demo" "$mut_demo" "$suite" "$code" "$nviol" "$first" <<'PY'
 import json, sys, os
 ID, od, md, suite, code, nv, first = sys.argv[1:8]
 out = "/verif/seeded/%s" % ID
+ID = ID.split("-")[0]
 meta = {
   "property": ID,
   "origin": "independent sub-agent given only the property text and its own scratch worktree",
